@@ -13,6 +13,11 @@ BINOPS = {"Eq": "==", "Ne": "!=", "Gt": ">", "Ge": ">=", "Lt": "<", "Le": "<=", 
 
 
 # ------------------------------------------------------------------------------------------ source synthesis
+def path_src(root, path):
+    """attribute names; an int (or ['idx', i]) indexes the list named just before it"""
+    return root + "".join("[%d]" % p[1] if isinstance(p, list) else ("[%d]" % p if isinstance(p, int) else "." + p) for p in path)
+
+
 def expr_src(e, root):
     k = e[0]
     if k == "lit":
@@ -24,7 +29,11 @@ def expr_src(e, root):
     if k == "enumlit":
         return "%s.m%d" % (e[1], e[2])
     if k == "f":
-        return root + "".join("[%d]" % p[1] if isinstance(p, list) else "." + p for p in e[1])
+        return path_src(root, e[1])
+    if k == "itf":
+        return path_src("_it", e[1])
+    if k == "dynidx":
+        return "%s[%s].%s()" % (path_src(root, e[1]), path_src(root, e[2]), e[3])
     if k == "listref":
         return expr_src(["f", e[1]], root)
     if k == "it":
@@ -44,7 +53,7 @@ def expr_src(e, root):
     if k == "not":
         return "(~%s)" % expr_src(e[1], root)
     if k == "dynref":
-        return "%s.%s()" % (".".join([root] + list(e[1])), e[2])
+        return "%s.%s()" % (path_src(root, e[1]), e[2])
     if k in ("inrl", "notinrl"):
         return "%s.%s(%s.%s)" % (expr_src(e[1], root), "inside" if k == "inrl" else "not_inside", root, e[2])
     if k in ("in", "notin"):
@@ -99,7 +108,9 @@ def stmts_src(stmts, root, ind):
             out.append(pad + "with vsc.foreach(%s, idx=True, it=True) as (_i, _it):" % expr_src(["f", s[1]], root))
             out += stmts_src(s[2], root, ind + 1)
         elif k == "dyn":
-            out.append(pad + "%s.%s()" % (".".join([root] + list(s[1])), s[2]))
+            out.append(pad + "%s.%s()" % (path_src(root, s[1]), s[2]))
+        elif k == "dynidx":
+            out.append(pad + expr_src(s, root))
         else:
             raise Exception("unknown stmt " + repr(s))
     return out
@@ -116,6 +127,8 @@ def field_ctor(f):
         return "vsc.%senum_t(%s)" % (r, f["enum"])
     if k == "obj":
         return "vsc.rand_attr(%s())" % f["cls"] if f.get("rand") else "vsc.attr(%s())" % f["cls"]
+    if k == "olist":
+        return "vsc.%slist_t(%s())" % ("rand_" if f.get("rand") else "", f["cls"])
     if k == "list":
         el = f["elem"]
         if el["kind"] == "scalar":
@@ -142,6 +155,10 @@ def class_src(c):
         lines.append("        super().__init__()")
     for f in c["fields"]:
         lines.append("        self.%s = %s" % (f["name"], field_ctor(f)))
+    for f in c["fields"]:
+        if f["kind"] == "olist":
+            lines.append("        for _ in range(%d):" % f["n"])
+            lines.append("            self.%s.append(%s())" % (f["name"], f["cls"]))
     for name, items in (c.get("rangelists") or {}).items():
         lines.append("        self.%s = vsc.rangelist(%s)" % (name, ", ".join(rl_item_src(it) for it in items)))
     if not c["fields"] and not c.get("base"):
@@ -187,7 +204,7 @@ class Env(object):
 
     def resolve(self, obj, path):
         for p in path:
-            obj = obj[p[1]] if isinstance(p, list) else getattr(obj, p)
+            obj = obj[p[1]] if isinstance(p, list) else (obj[p] if isinstance(p, int) else getattr(obj, p))
         return obj
 
     def assign(self, obj, path, value):
@@ -227,6 +244,11 @@ class Env(object):
                 with vsc.raw_mode():
                     sub = getattr(obj, f["name"])
                 out += self.leaves(sub, p)
+            elif f["kind"] == "olist":
+                with vsc.raw_mode():
+                    lst = getattr(obj, f["name"])
+                for i in range(f["n"]):
+                    out += self.leaves(lst[i], p + (i,))
             elif f["kind"] == "list":
                 with vsc.raw_mode():
                     lst = getattr(obj, f["name"])
@@ -239,6 +261,9 @@ class Env(object):
     def leaf_model(self, obj, path):
         with vsc.raw_mode():
             for k, n in enumerate(path):
+                if isinstance(n, int) and k < len(path) - 1:
+                    obj = obj[n]            # an element of a list of objects
+                    continue
                 if isinstance(n, int):
                     return obj.get_model().field_l[n]
                 if n == "size" and hasattr(obj, "get_model") and hasattr(obj.get_model(), "size") and k == len(path) - 1:
@@ -298,6 +323,11 @@ class Env(object):
                 with vsc.raw_mode():
                     sub = getattr(obj, f["name"])
                 self.number_objects(sub, counter)
+            elif f["kind"] == "olist":
+                with vsc.raw_mode():
+                    lst = getattr(obj, f["name"])
+                for i in range(f["n"]):
+                    self.number_objects(lst[i], counter)
 
     def register_fields(self, obj):
         """map the scalar/enum field models of obj (flat order of leaves) to harness ids"""
